@@ -1,8 +1,10 @@
 (* C09 - output VCF records are valid against their reference and reproduce the oligo.
    Kernel level: the record built by the model of vcf_writer.py from the alleles that the model of the to_csv loop
-   body (Model/ToCsv.v) hands to it.  The choice of alleles per row (anchors, widening to PAM codons) is tied to the
-   code row by row by the correspondence and judged by the independent oracle of the check (partial). *)
-From VV Require Import Model.Base Model.Pattern Model.Seq Model.Vcf Model.ToCsv Proofs.VcfRecordProofs.
+   body (Model/ToCsv.v) hands to it.  Row level (generated mutators): the records the loop body writes for a row - anchors,
+   widening to PAM codons included - are valid and reproduce the oligonucleotide / the mutated reference.  Rows of custom
+   variants (their own VCF anchor) and the PAM record under background variants are tied to the code row by row by the
+   correspondence and judged by the independent oracle of the check (partial). *)
+From VV Require Import Model.Base Model.Pattern Model.Seq Model.Vcf Model.Gpo Model.ToCsv Proofs.VcfRecordProofs Proofs.MaveRowProofs Proofs.VcfRowProofs.
 
 (* substitutions and widened records (both alleles non-empty, no anchor): no empty allele, REF is the sequence at POS,
    REF->ALT reproduces the target, for any flanks P, S *)
@@ -17,6 +19,44 @@ Theorem C09_record_anchored : forall x0 P x R A S pos,
   exists r, mk_record (pos - 1) (mkAl R (Some x)) (mkAl A (Some x)) None = Ok r /\
             rec_ok x0 (P ++ [x] ++ R ++ S) r (P ++ [x] ++ A ++ S) /\ vr_pos r = pos - 1.
 Proof. exact record_anchored. Qed.
+
+(* one row of a generated mutator, no background variants: the record written to the PAM VCF - anchored for an insertion or deletion,
+   widened to the PAM codon where the row shares a codon with an edit - is valid against the protected sequence (pv: the nucleotide
+   preceding the targeton) and REF->ALT reproduces the oligonucleotide.  Hypotheses as for C10_row_mave_nt_decodes; position >= 4: see the
+   known finding about contig positions 2-3 *)
+Theorem C09_row_pam_record_ok : forall c mr o x0 (T : dna) pv r,
+  row_out c mr = Ok o -> o_vcf_pam o = Some r -> cx_gpo c = None -> mr_custom mr = false -> mr_vcf_nt mr = None ->
+  p_seq (cx_alt c) = mkSeq x0 T -> p_prev (cx_alt c) = Some pv -> s_start (p_seq (cx_seq c)) = x0 -> 1 <= x0 ->
+  mr_ref_pos mr = mr_alt_pos mr -> mr_end mr = get_end (mr_alt_pos mr) (zlen (mr_ref mr)) ->
+  let a := mr_alt_pos mr - x0 in
+  0 <= a -> a + zlen (mr_ref mr) <= zlen T -> 4 <= mr_alt_pos mr ->
+  x0 <= opt_min (mr_alt_pos mr) (mr_start_ppe mr) -> opt_max (mr_end mr) (mr_end_ppe mr) <= x0 + zlen T - 1 ->
+  mr_oligo mr = zfirstn a T ++ mr_alt mr ++ zskipn (a + zlen (mr_ref mr)) T ->
+  rec_ok (x0 - 1) (pv :: T) r (pv :: mr_oligo mr).
+Proof. exact row_pam_record_ok. Qed.
+
+(* ... and the record written to the REF VCF (with or without background variants) is valid against the unprotected reference and
+   REF->ALT yields the reference carrying only the row's mutation *)
+Theorem C09_row_ref_record_ok : forall c mr o x0 (R : dna) pr r,
+  row_out c mr = Ok o -> o_vcf_ref o = Some r -> mr_custom mr = false -> mr_vcf_nt mr = None ->
+  p_seq (cx_seq c) = mkSeq x0 R -> p_prev (cx_seq c) = Some pr -> 1 <= x0 ->
+  let a := mr_ref_pos mr - x0 in
+  0 <= a -> a + zlen (mr_ref mr) <= zlen R -> 4 <= mr_ref_pos mr ->
+  rec_ok (x0 - 1) (pr :: R) r (pr :: zfirstn a R ++ mr_alt mr ++ zskipn (a + zlen (mr_ref mr)) R).
+Proof. exact row_ref_record_ok. Qed.
+
+(* non-vacuity: the SNV at 103 sharing a codon with the PAM edit at 104: PAM record 103 TT>AT (SGE_REF=TA), REF record 103 T>A *)
+Example C09_row_example :
+  match row_out ex_ctx ex_row with
+  | Ok o => match o_vcf_pam o, o_vcf_ref o with
+            | Some r2, Some r1 =>
+                r2 = mkRec 103 (d "TT") (d "AT") (Some (d "TA")) /\ r1 = mkRec 103 (d "T") (d "A") None /\
+                rec_ok 99 (G :: d "ACGTTCGTAC") r2 (G :: d "ACGATCGTAC") /\ rec_ok 99 (G :: d "ACGTACGTAC") r1 (G :: d "ACGAACGTAC")
+            | _, _ => False
+            end
+  | Err _ => False
+  end.
+Proof. exact row_records_example. Qed.
 
 (* SGE_REF is present exactly when the unprotected allele differs from REF over the record's span, and then equals it *)
 Theorem C09_sge_ref_iff : forall start ref alt sge r,
@@ -34,3 +74,5 @@ Proof. vm_compute. reflexivity. Qed.
 Print Assumptions C09_record_substitution.
 Print Assumptions C09_record_anchored.
 Print Assumptions C09_sge_ref_iff.
+Print Assumptions C09_row_pam_record_ok.
+Print Assumptions C09_row_ref_record_ok.
